@@ -66,6 +66,13 @@ MC_KAxisStore == [main    |-> [k |-> << 0, 1, 2 >>,    x |-> << 4, 5, 6 >>],
 MC_AsksKAxis == { << "step", "x" >>, << "initial", "x" >> }
 MC_AsksKAxisAll == { << "main", "x" >>, << "step", "x" >>, << "initial", "x" >>, << "initial", "k" >> }
 
+(* names that differ only in letter case (distinct, legal variable names), and a series taken out and put  *)
+(* back between renderings: the rendering depends only on what is stored                                   *)
+MC_CaseStore == [main |-> [x |-> << 4, 5, 6 >>, X |-> << 10, 11, 12 >>], step |-> << >>, initial |-> << >>]
+MC_AsksCase == { << "main", "X" >> }
+MC_ReinsertsNone == {}
+MC_ReinsertsCase == { "x", "X" }
+
 MC_RMain == { "main" }
 MC_RMainStep == { "main", "step" }
 
